@@ -11,115 +11,20 @@ import (
 )
 
 // Native coverage-guided fuzz targets for the byte-level decoders. Each target
-// applies the same oracle as the corresponding vk sub-check (the failure keys
-// are shared, so open entries of known_findings.jsonl are skipped and the
-// fuzzer searches behind them). Seeds: /verif/corpus/C16/<target>/*.
+// is the byte-level sub-check of the same name (same check function, same
+// failure keys, so open entries of known_findings.jsonl are skipped and the
+// fuzzer searches behind them). Seeds: /verif/corpus/C16/<sub>/*.
 //
 //	cd /verif/harness && go test -run '^$' -fuzz '^FuzzGraph6$' -fuzztime 60s ./c16
 
-const fuzzMaxLen = 4096
-
-func fuzzBytes(f *testing.F, target string, inline []string, run func(data []byte) (sub string, fail *vk.Failure)) {
-	for _, s := range inline {
-		f.Add([]byte(s))
-	}
-	addCorpus(f, target, func(b []byte) { f.Add(b) })
-	f.Fuzz(func(t *testing.T, data []byte) {
-		if len(data) > fuzzMaxLen {
-			t.Skip()
-		}
-		var sub string
-		fail := fuzzGuard("", func() *vk.Failure {
-			s, fl := run(data)
-			sub = s
-			return fl
-		})
-		if sub == "" {
-			sub = target
-		}
-		fuzzReport(t, sub, fail)
-	})
-}
-
-func FuzzGraph6(f *testing.F) {
-	fuzzBytes(f, "graph6", []string{"?", "@", "A_", "Bw", "DQc", "~??~", "~~?????A"}, func(data []byte) (string, *vk.Failure) {
-		return "g6-total", checkG6Bytes(g6BytesCase{Directed: false, Data: data})
-	})
-}
-
-func FuzzDigraph6(f *testing.F) {
-	fuzzBytes(f, "digraph6", []string{"&?", "&@?", "&AG", "&BP_", "&~??B????", "&~~C?????"}, func(data []byte) (string, *vk.Failure) {
-		return "g6-total", checkG6Bytes(g6BytesCase{Directed: true, Data: data})
-	})
-}
-
-func FuzzDOT(f *testing.F) {
-	fuzzBytes(f, "dot", dotSnippets, func(data []byte) (string, *vk.Failure) {
-		return "dot-total", checkDOTBytes(dotBytesCase{Data: data})
-	})
-}
-
-func FuzzNQuads(f *testing.F) {
-	seeds := []string{
-		"<http://a/s> <http://a/p> <http://a/o> .",
-		"_:b0 <urn:p> \"lit\\n\\u00e9\\U0001F600\"@en-US <urn:g> . # c",
-		"<a:s> <a:p> \"x\"^^<http://www.w3.org/2001/XMLSchema#string> _:g .\n# comment\n\n_:a <a:p> _:b .\r\n",
-	}
-	fuzzBytes(f, "nquads", seeds, func(data []byte) (string, *vk.Failure) {
-		return "nq-total", checkNQBytes(nqBytesCase{Data: data})
-	})
-}
-
-func fuzzMat(f *testing.F, target string, vec bool) {
-	enc := refMatEncode(2, map[bool]int{false: 3, true: 1}[vec], func(i, j int) float64 { return float64(i*3+j) - 0.5 })
-	fuzzBytes(f, target, []string{string(enc), string(enc[:40]), string(goodHeader(1<<61+1, 8).bytes())}, func(data []byte) (string, *vk.Failure) {
-		for api := 0; api < 4; api++ {
-			if fl := checkMatBytes(matBytesCase{Vec: vec, Stream: api, Data: data}); fl != nil {
-				return "mat-total", fl
-			}
-		}
-		return "mat-total", nil
-	})
-}
-
-func FuzzMatDense(f *testing.F)    { fuzzMat(f, "matdense", false) }
-func FuzzMatVecDense(f *testing.F) { fuzzMat(f, "matvecdense", true) }
-
-// FuzzPRNG: the first byte selects the generator, the rest is the state.
-func FuzzPRNG(f *testing.F) {
-	var seeds []string
-	for k := range prngNames {
-		b, _ := newSource(k, uint64(k)+1).MarshalBinary()
-		seeds = append(seeds, string(append([]byte{byte(k)}, b...)))
-	}
-	fuzzBytes(f, "prng", seeds, func(data []byte) (string, *vk.Failure) {
-		if len(data) == 0 {
-			return "prng-total", nil
-		}
-		return "prng-total", checkPRNGBytes(prngBytesCase{Kind: int(data[0]) % len(prngNames), Data: data[1:]})
-	})
-}
-
-// FuzzHLL: the first byte selects word size (bit 0) and receiver (bits 1-2:
-// zero value, fnv, fnv-a), the rest is the gob stream.
-func FuzzHLL(f *testing.F) {
-	var seeds []string
-	for sel := 0; sel < 6; sel++ {
-		bits := 32 + 32*(sel&1)
-		s := newSketch(bits, 4+sel, sel>>1%2)
-		feed(s, uint64(sel), 20*sel)
-		b, _ := s.MarshalBinary()
-		seeds = append(seeds, string(append([]byte{byte(sel)}, b...)))
-	}
-	seeds = append(seeds, string(append([]byte{1}, hllStream(64, hllHashNames[2], 8, make([]uint8, 16))...)))
-	fuzzBytes(f, "hll", seeds, func(data []byte) (string, *vk.Failure) {
-		if len(data) == 0 {
-			return "hll-total", nil
-		}
-		sel := int(data[0])
-		return "hll-total", checkHLLBytes(hllBytesCase{Bits: 32 + 32*(sel&1), RecvHash: sel>>1%3 - 1, Data: data[1:]})
-	})
-}
+func FuzzGraph6(f *testing.F)      { vk.Fuzz(f, "g6-total", nil, checkG6TotalBytes) }
+func FuzzDigraph6(f *testing.F)    { vk.Fuzz(f, "d6-total", nil, checkD6TotalBytes) }
+func FuzzDOT(f *testing.F)         { vk.Fuzz(f, "dot-total", nil, checkDOTBytes) }
+func FuzzNQuads(f *testing.F)      { vk.Fuzz(f, "nq-total", nil, checkNQBytes) }
+func FuzzMatDense(f *testing.F)    { vk.Fuzz(f, "matdense-total", nil, checkMatDenseBytes) }
+func FuzzMatVecDense(f *testing.F) { vk.Fuzz(f, "matvec-total", nil, checkMatVecBytes) }
+func FuzzPRNG(f *testing.F)        { vk.Fuzz(f, "prng-total", nil, checkPRNGTotalBytes) }
+func FuzzHLL(f *testing.F)         { vk.Fuzz(f, "hll-total", nil, checkHLLTotalBytes) }
 
 // TestWriteCorpus regenerates the binary seed files under /verif/corpus/C16
 // (run with C16_WRITE_CORPUS=1; the text seeds are maintained by hand).
@@ -137,9 +42,9 @@ func TestWriteCorpus(t *testing.T) {
 		}
 	}
 	for _, vec := range []bool{false, true} {
-		target, cc := "matdense", 3
+		target, cc := "matdense-total", 3
 		if vec {
-			target, cc = "matvecdense", 1
+			target, cc = "matvec-total", 1
 		}
 		write(target, "valid-2x", refMatEncode(2, cc, func(i, j int) float64 { return float64(i*3+j) + 0.25 }))
 		write(target, "valid-1x1-nan", refMatEncode(1, 1, func(i, j int) float64 { return matValue(vk.NewSplitMix(3), 1) }))
@@ -152,21 +57,21 @@ func TestWriteCorpus(t *testing.T) {
 			s.Uint64()
 		}
 		b, _ := s.MarshalBinary()
-		write("prng", name, append([]byte{byte(k)}, b...))
+		write("prng-total", name, append([]byte{byte(k)}, b...))
 	}
 	for sel := 0; sel < 4; sel++ {
 		bits := 32 + 32*(sel&1)
 		s := newSketch(bits, 5+sel, sel>>1)
 		feed(s, 7, 100)
 		b, _ := s.MarshalBinary()
-		write("hll", fmt.Sprintf("hll%d-fnv%d", bits, sel>>1), append([]byte{byte(sel&1 | (sel>>1+1)<<1)}, b...))
+		write("hll-total", fmt.Sprintf("hll%d-fnv%d", bits, sel>>1), append([]byte{hllSelector(bits, sel>>1)}, b...))
 	}
 	adj := [][]bool{{false, true, false, true}, {true, false, true, false}, {false, true, false, true}, {true, false, true, false}}
-	write("graph6", "c4", refEncode(adj, false, 0))
-	write("graph6", "c4-4byte-header", refEncode(adj, false, 1))
-	write("graph6", "k1", refEncode([][]bool{{false}}, false, 0))
-	write("digraph6", "c4", refEncode(adj, true, 0))
-	write("digraph6", "c4-8byte-header", refEncode(adj, true, 2))
+	write("g6-total", "c4", refEncode(adj, false, 0))
+	write("g6-total", "c4-4byte-header", refEncode(adj, false, 1))
+	write("g6-total", "k1", refEncode([][]bool{{false}}, false, 0))
+	write("d6-total", "c4", refEncode(adj, true, 0))
+	write("d6-total", "c4-8byte-header", refEncode(adj, true, 2))
 	big := make([][]bool, 63)
 	for i := range big {
 		big[i] = make([]bool, 63)
@@ -174,9 +79,14 @@ func TestWriteCorpus(t *testing.T) {
 	for i := range big {
 		big[i][(i+1)%63], big[(i+1)%63][i] = true, true
 	}
-	write("graph6", "cycle63", refEncode(big, false, 0))
+	write("g6-total", "cycle63", refEncode(big, false, 0))
+	write("g6-total", "empty-string", nil)
+	write("g6-total", "short-header", []byte("~"))
+	write("d6-total", "order-2pow32", []byte("&~~C?????"))
+	write("matdense-total", "wrapped-dims", append(goodHeader(1<<61+1, 8).bytes(), make([]byte, 64)...))
+	write("hll-total", "inconsistent-registers", append([]byte{hllSelector(64, 0)}, hllStream(64, hllHashNames[2], 8, make([]uint8, 16))...))
 	for i, s := range dotSnippets {
-		write("dot", fmt.Sprintf("snippet%02d.dot", i), []byte(s))
+		write("dot-total", fmt.Sprintf("snippet%02d.dot", i), []byte(s))
 	}
 	nq := []string{
 		"<http://example.org/s> <http://example.org/p> <http://example.org/o> <http://example.org/g> .\n",
@@ -184,7 +94,7 @@ func TestWriteCorpus(t *testing.T) {
 		"# comment\n\n<a:s> <a:p> \"1\"^^<http://www.w3.org/2001/XMLSchema#integer> _:g .\r\n_:a <a:p> _:a.b-c .\n",
 	}
 	for i, s := range nq {
-		write("nquads", fmt.Sprintf("seed%02d.nq", i), []byte(s))
+		write("nq-total", fmt.Sprintf("seed%02d.nq", i), []byte(s))
 	}
 }
 
@@ -208,22 +118,22 @@ func TestWriteWitnesses(t *testing.T) {
 			t.Fatal(err)
 		}
 	}
-	write("graph6-gostring-empty", "g6-total", g6BytesCase{Data: []byte{}})
-	write("graph6-gostring-tilde", "g6-total", g6BytesCase{Data: []byte("~")})
-	write("graph6-from-absent-nil", "g6-total", g6BytesCase{Data: []byte("A_")})
-	write("digraph6-from-absent-nil", "g6-total", g6BytesCase{Directed: true, Data: []byte("&AG")})
-	write("digraph6-isvalid-order-2pow32", "g6-total", g6BytesCase{Directed: true, Data: []byte("&~~C?????")})
-	write("mat-dense-bytes-wrapped-dims", "mat-total", matBytesCase{Data: append(goodHeader(1<<61+1, 8).bytes(), make([]byte, 64)...)})
-	write("mat-dense-stream-wrapped-dims", "mat-total", matBytesCase{Stream: 1, Data: append(goodHeader(1<<61+1, 8).bytes(), make([]byte, 64)...)})
-	write("mat-dense-bytes-makeslice", "mat-total", matBytesCase{Data: goodHeader(1<<31, 1<<31).bytes()})
-	write("mat-vecdense-bytes-makeslice", "mat-total", matBytesCase{Vec: true, Data: append(goodHeader(1<<61+1, 1).bytes(), make([]byte, 8)...)})
-	write("mat-dense-negative-rows-error", "mat-total", matBytesCase{Data: goodHeader(-1, 1).bytes()})
+	write("graph6-gostring-empty", "g6-total", vk.BytesCase{Data: []byte{}})
+	write("graph6-gostring-tilde", "g6-total", vk.BytesCase{Data: []byte("~")})
+	write("graph6-from-absent-nil", "g6-total", vk.BytesCase{Data: []byte("A_")})
+	write("digraph6-from-absent-nil", "d6-total", vk.BytesCase{Data: []byte("&AG")})
+	write("digraph6-isvalid-order-2pow32", "d6-total", vk.BytesCase{Data: []byte("&~~C?????")})
+	write("mat-dense-wrapped-dims", "matdense-total", vk.BytesCase{Data: append(goodHeader(1<<61+1, 8).bytes(), make([]byte, 64)...)})
+	write("mat-dense-makeslice", "matdense-total", vk.BytesCase{Data: goodHeader(1<<31, 1<<31).bytes()})
+	write("mat-vecdense-makeslice", "matvec-total", vk.BytesCase{Data: append(goodHeader(1<<61+1, 1).bytes(), make([]byte, 8)...)})
+	write("mat-dense-negative-rows-error", "matdense-total", vk.BytesCase{Data: goodHeader(-1, 1).bytes()})
+	write("mat-vecdense-negative-rows-error", "matvec-total", vk.BytesCase{Data: goodHeader(-1, 1).bytes()})
 	write("hll64-union-different-hash", "hll-compat", hllCompatCase{Bits: 64, PA: 4, PB: 4, HA: 0, HB: 1, Recv: 3, HR: 0, PR: 4, NA: 3, NB: 3, SeedA: 1, SeedB: 2})
 	write("hll32-union-different-hash", "hll-compat", hllCompatCase{Bits: 32, PA: 4, PB: 4, HA: 0, HB: 1, Recv: 1, NA: 3, NB: 3, SeedA: 1, SeedB: 2})
 	write("hll64-sethash-on-unset-receiver", "hll-compat", hllCompatCase{Bits: 64, PA: 4, PB: 4, Recv: 0, NA: 3, NB: 3, SeedA: 1, SeedB: 2})
 	write("hll64-sethash-on-set-receiver", "hll-compat", hllCompatCase{Bits: 64, PA: 4, PB: 4, Recv: 1, NA: 3, NB: 3, SeedA: 1, SeedB: 2})
-	write("hll64-unmarshal-16-registers-precision-8", "hll-total", hllBytesCase{Bits: 64, RecvHash: 0, Data: hllStream(64, hllHashNames[2], 8, make([]uint8, 16))})
-	write("hll32-unmarshal-16-registers-precision-8", "hll-total", hllBytesCase{Bits: 32, RecvHash: -1, Data: hllStream(32, hllHashNames[0], 8, make([]uint8, 16))})
+	write("hll64-unmarshal-16-registers-precision-8", "hll-total", vk.BytesCase{Data: append([]byte{hllSelector(64, 0)}, hllStream(64, hllHashNames[2], 8, make([]uint8, 16))...)})
+	write("hll32-unmarshal-16-registers-precision-8", "hll-total", vk.BytesCase{Data: append([]byte{hllSelector(32, -1)}, hllStream(32, hllHashNames[0], 8, make([]uint8, 16))...)})
 	write("nquads-parts-uchar-out-of-range", "nq-total", nqBytesCase{Data: []byte(`<a:s> <a:p> "\U80000000" .`)})
 	blank := nqStmt{S: nqTerm{Kind: 1, Body: "a:s"}, P: nqTerm{Kind: 1, Body: "a:p"}, O: nqTerm{Kind: 3, Body: "a_:b"}, Sep: []string{"", " ", " ", " ", " ", ""}}
 	write("nquads-blank-label-split", "nq-rt", blank)
